@@ -416,6 +416,8 @@ def truth(t, assume):
     if k == "not":
         v = truth(t[1], assume)
         return None if v is None else (not v)
+    if k == "call" and t[1] == "builtins.bool" and len(t[2]) == 1 and not t[3]:
+        return truth(t[2][0], assume)
     if k == "bool":
         vals = [truth(x, assume) for x in t[2]]
         if t[1] == "and":
